@@ -249,3 +249,15 @@ Theorem off_by1_suggestion_differs :
 Proof.
   exists (env_of [("xs", VInts [3; 7]%Z)] []), (EIdent "xs" TInts). split; [apply env_of_ok|]. vm_compute. repeat split.
 Qed.
+
+(* newDeref: `*new(T)` is the zero value of T (Go spec: new allocates a zeroed variable); the literal suggested
+   for int / float64 / string has the text ZeroValueOf produces and evaluates, without events, to a value equal
+   to that zero value *)
+Theorem new_deref_zero_literal en t e h :
+  zero_lit t = Some e ->
+  (exists k s, e = ELit k s t /\ zero_value_text "T" (match t with TInt => ZInt | TFloat => ZFloat | _ => ZString end) true = Some s) /\
+  exists v, evalS en e h = Some (RVal v, h) /\ cmp_val OEq v (default_value t) = Some true.
+Proof.
+  destruct t; simpl; intros H; inversion H; subst e; (split; [eexists; eexists; split; reflexivity|]);
+    eexists; (split; [vm_compute; reflexivity|vm_compute; reflexivity]).
+Qed.
